@@ -179,11 +179,42 @@ func c02Recipes() []c02Recipe {
 		{"length-then-bind", func(e []T, l *ref.Var, k int) []T {
 			return []T{Cm("length", l, I(int64(len(e)))), Cm("=", l, ref.List(e...))}
 		}},
+		// a string (compact representation) as the prefix of an open list that is completed afterwards
+		{"append-string-open", func(e []T, l *ref.Var, k int) []T {
+			if len(e) < 2 {
+				return nil
+			}
+			s, ok := allChars(e[:len(e)-1])
+			if !ok {
+				return nil
+			}
+			return []T{Cm("append", Cm("$str", A(s)), tv(k, "T"), l), Cm("=", tv(k, "T"), ref.List(e[len(e)-1:]...))}
+		}},
+		{"append-atom_chars-open", func(e []T, l *ref.Var, k int) []T {
+			if len(e) < 2 {
+				return nil
+			}
+			s, ok := allChars(e[:len(e)-1])
+			if !ok {
+				return nil
+			}
+			return []T{Cm("atom_chars", A(s), tv(k, "P")), Cm("append", tv(k, "P"), tv(k, "T"), l), Cm("=", tv(k, "T"), ref.List(e[len(e)-1:]...))}
+		}},
+		{"append-atom_codes-open", func(e []T, l *ref.Var, k int) []T {
+			if len(e) < 2 {
+				return nil
+			}
+			s, ok := allCodes(e[:len(e)-1])
+			if !ok {
+				return nil
+			}
+			return []T{Cm("atom_codes", A(s), tv(k, "P")), Cm("append", tv(k, "P"), tv(k, "T"), l), Cm("=", tv(k, "T"), ref.List(e[len(e)-1:]...))}
+		}},
 	}
 }
 
 func c02AbstractLists(maxLen int) [][]T {
-	elems := []T{A("a"), A("b"), I(97), V("X")}
+	elems := []T{A("a"), A("b"), I(97), V("X"), A("日"), I(26085)}
 	var out [][]T
 	for n := 0; n <= maxLen; n++ {
 		seqs(n, len(elems), func(idx []int) bool {
@@ -273,6 +304,45 @@ func c02RecipeWork(w *h.W) {
 			}
 		}
 		runProgCase(w, "head-recipes", pc, len(la))
+	}
+	// asserted heads: the list is built through each recipe (so that it is held in each internal
+	// representation, open ones included) and THEN stored as the argument of a clause head by assertz/1;
+	// the clause is called with the same list, a longer one, a shorter one, an open one and a variable
+	for _, la := range lists {
+		if !w.Mine() {
+			continue
+		}
+		if w.Expired() {
+			return
+		}
+		for _, ra := range recipes {
+			ga := ra.build(la, V("L"), 1)
+			if ga == nil {
+				continue
+			}
+			pc := &h.ProgCase{DQ: "chars"}
+			lt := ref.List(la...)
+			longer := ref.List(append(append([]T{}, la...), A("z"))...)
+			var shorter T = ref.Nil
+			if len(la) > 0 {
+				shorter = ref.List(la[:len(la)-1]...)
+			}
+			calls := []T{
+				Cm("ah", renameVars(lt, "Q")), Cm("ah", V("Free")), Cm("ah", renameVars(longer, "Q")), Cm("ah", renameVars(shorter, "Q")),
+				Cm("ah", ref.PList(V("Tl"), renameVars(lt, "Q").(T))), Cm("ah2", Cm("f", V("Free"), V("Z"))), Cm("ah3", V("Hd"), renameVars(lt, "Q")),
+				Cm("clause", Cm("ah", V("Free")), A("true")),
+			}
+			setup := h.Query(conj(append(append([]T{}, ga...), Cm("assertz", Cm("ah", V("L"))), Cm("assertz", Cm("ah2", Cm("f", V("L"), A("k")))),
+				Cm("assertz", Cm("ah3", A("x"), V("L"))), Cm("assertz", Cm("ah3", A("y"), ref.PList(V("Open"), V("L")))))...), 2)
+			pc.Steps = append(pc.Steps, setup)
+			for _, call := range calls {
+				if ref.STO(lt, call) {
+					continue
+				}
+				pc.Steps = append(pc.Steps, h.Query(call, 6))
+			}
+			runProgCase(w, "asserted-heads", pc, len(la))
+		}
 	}
 }
 
@@ -456,7 +526,7 @@ func c02Replay(b []byte) (string, string, bool) {
 func init() {
 	h.Register(&h.Check{
 		ID: "C02",
-		Rule: "(a) all ordered pairs of terms of depth <= 1 over {a,(b),1,(1.0),X,Y,(Z),[],f/1,g/2,'.'/2} and all (depth-2 term, depth<=1 term) pairs: =/2 both ways, == afterwards, bindings after failure (else-branch, \\+, \\=, next clause), unify_with_occurs_check/2 both ways, subsumes_term/2, copy_term/2, clause-head unification; pairs subject to occurs check (conservative detector) are skipped for =/2 only; (b) all pairs of abstract lists of length <= L over {a,b,97,X} x all pairs of 13 construction recipes (bracket, nested [H|T], partial list bound later/earlier, './2 compound, atom_chars, atom_codes, double-quoted literal, append/3 closed and open, =../2, findall/3, length/2 then bind); (c) binding tree: every insertion order of n <= N variables (atoms and variable chains), every earlier environment version re-checked after every insertion. Non-trivial = decided; distinct = case text.",
+		Rule: "(a) all ordered pairs of terms of depth <= 1 over {a,(b),1,(1.0),X,Y,(Z),[],f/1,g/2,'.'/2} and all (depth-2 term, depth<=1 term) pairs: =/2 both ways, == afterwards, bindings after failure (else-branch, \\+, \\=, next clause), unify_with_occurs_check/2 both ways, subsumes_term/2, copy_term/2, clause-head unification; pairs subject to occurs check (conservative detector) are skipped for =/2 only; (b) all pairs of abstract lists of length <= L over {a,b,97,X} x all pairs of 16 construction recipes (bracket, nested [H|T], partial list bound later/earlier, './2 compound, atom_chars, atom_codes, double-quoted literal, append/3 closed and open, =../2, findall/3, length/2 then bind); (c) binding tree: every insertion order of n <= N variables (atoms and variable chains), every earlier environment version re-checked after every insertion. Non-trivial = decided; distinct = case text.",
 		Explanation: "state = a pair of terms (or an environment version); transition = one unification attempt on the real interpreter (or one Env.Unify on the real persistent tree) compared with the reference Robinson unifier / a plain Go map; the answer substitution is compared up to variable renaming, which makes it a most general unifier iff the reference's is",
 		Assumptions: []string{"reference: ref/unify (Robinson with trail, occurs check optional) and the conservative STO detector", "engine.Variable, engine.NewEnv, Env.Unify and Env.Resolve are exported API and are used directly for the binding-tree sub-check"},
 		Work:        c02Work,
